@@ -352,6 +352,13 @@ func history(c *mon.Ctx, r *gen.Rand) {
 				pay, hasPay = payloadOf(&p)
 				events["identical_packet_repeated"] = true
 			}
+			if havePrev && r.Chance(6) && p[3]&0x30 == 0x30 && prevPkt[3]&0x30 == 0x30 {
+				// the same four header bytes as the packet before (a repeated counter, as for a duplicate packet), but
+				// an adaptation field of another length and another payload
+				copy(p[:4], prevPkt[:4])
+				pay, hasPay = payloadOf(&p)
+				events["same_header_other_adaptation_field"] = true
+			}
 			prevPkt, havePrev = p, true
 			snap := p
 			pusi := p[1]&0x40 != 0
